@@ -157,6 +157,10 @@ thread_local! {
     static PARTICIPANT: Cell<bool> = const { Cell::new(false) };
 }
 
+/// When > 0: fdatasync/fsync calls made by NON-participant threads (the store's Async sync thread) on files under the
+/// armed root are delayed by this many milliseconds, so that "syncs still pending" is a state a test can rely on.
+pub static BACKGROUND_SYNC_DELAY_MS: std::sync::atomic::AtomicU64 = std::sync::atomic::AtomicU64::new(0);
+
 type InstallFn = unsafe extern "C" fn(Option<unsafe extern "C" fn(*const RawCall) -> c_int>, Option<unsafe extern "C" fn(*const RawCall, i64, c_int)>);
 type PassFn = unsafe extern "C" fn(c_int);
 
@@ -269,6 +273,10 @@ fn classify<'a>(c: &'a RawCall) -> Option<Event<'a>> {
 unsafe extern "C" fn pre_cb(c: *const RawCall) -> c_int {
     let c = unsafe { &*c };
     if !is_participant() {
+        let d = BACKGROUND_SYNC_DELAY_MS.load(std::sync::atomic::Ordering::Relaxed);
+        if d > 0 && matches!(kind_of(c.kind), Kind::Fdatasync | Kind::Fsync) && FDS.lock().unwrap().as_ref().map_or(false, |t| t.contains_key(&c.fd)) {
+            std::thread::sleep(std::time::Duration::from_millis(d));
+        }
         return 0;
     }
     let r = std::panic::catch_unwind(|| {
